@@ -1079,3 +1079,13 @@ V("C17", "utmp-host-through-pointer", UC,
    ("        if (strncmp(ut->ut_host, \":0\", sizeof(ut->ut_host)) == 0 ||\n                strncmp(ut->ut_host, \":0.0\", sizeof(ut->ut_host)) == 0)\n            py_hostname = PyUnicode_DecodeFSDefault(\"localhost\");\n        else\n            py_hostname = PyUnicode_DecodeFSDefaultAndSize(\n                ut->ut_host, strnlen(ut->ut_host, sizeof(ut->ut_host)));",
     "        host = ut->ut_host;\n        if (strcmp(host, \":0\") == 0 || strcmp(host, \":0.0\") == 0)\n            host = \"localhost\";\n        py_hostname = PyUnicode_DecodeFSDefault(host);")],
   "fires:C17.R2")
+V("C18", "ioprio-pack-operands-swapped", PC,
+  ("    ioprio = IOPRIO_PRIO_VALUE(ioclass, iodata);", "    ioprio = IOPRIO_PRIO_VALUE(iodata, ioclass);"),
+  "fires:C18.R2")
+V("C18", "benign-ioprio-c-locals-renamed", PC,
+  [("    int ioprio, ioclass, iodata;\n    int retval;\n\n    if (! PyArg_ParseTuple(\n            args, _Py_PARSE_PID \"ii\", &pid, &ioclass, &iodata)) {",
+    "    int ioprio, klass, level;\n    int retval;\n\n    if (! PyArg_ParseTuple(\n            args, _Py_PARSE_PID \"ii\", &pid, &klass, &level)) {"),
+   ("    if (ioclass < 0 || ioclass > 7 ||\n            iodata < 0 || iodata > (int)IOPRIO_PRIO_MASK) {",
+    "    if (klass < 0 || klass > 7 ||\n            level < 0 || level > (int)IOPRIO_PRIO_MASK) {"),
+   ("    ioprio = IOPRIO_PRIO_VALUE(ioclass, iodata);", "    ioprio = IOPRIO_PRIO_VALUE(klass, level);")],
+  "silent")
